@@ -255,6 +255,8 @@ def impl_predicates(pid, op, impl):
         hits.append(("C15" if iskey else "C05", "a decoder accepted a label that is a tagged item, not an integer or text"))
         if not iskey:
             hits.append(("C13", "a decoder accepted a label that is a tagged item, not an integer or text"))
+    if "BAD-KEY(" in impl:
+        hits.append(("C15", "the key decoder accepted a COSE_Key that C15 rules out: " + impl[impl.index("BAD-KEY("):][:60]))
     if "ALG-NOT-ON-WIRE" in impl:
         hits.append(("C04", "a verifier was invoked although the protected bytes as received do not name its algorithm as a plain integer: " + impl[impl.index("ALG-NOT-ON-WIRE"):][:40]))
     if "empty-signature-emitted" in impl:
